@@ -423,6 +423,13 @@ def write_evidence(ctx, exit_code):
         "breaks": jsonable([{"kind": b["kind"], "what": b["what"]} for b in ctx.breaks[:10]]),
         "notes": ctx.notes,
     }
+    try:
+        import srccov
+        sc = srccov.report()
+        if sc is not None:
+            cov["source_line_coverage"] = sc
+    except Exception as e:          # measurement only: never affects the verdict
+        cov["source_line_coverage"] = {"error": repr(e)}
     if ctx.exhaustive is not None:
         cov["exhaustive"] = bool(ctx.exhaustive)
     cov.update(jsonable(ctx.extra))
